@@ -7,7 +7,9 @@
 (*   Unsat  (certificate on) every emitted line is RUP w.r.t. the input and *)
 (*          the earlier lines, and the empty clause is RUP at the end -     *)
 (*          which, RUP being sound, proves the verdict;                     *)
-(*   lines emitted on Sat problems must be RUP too.                         *)
+(*   lines emitted on Sat problems must be RUP too;                         *)
+(*   planted problems (a witness assignment comes with the case and is      *)
+(*   evaluated here) must be answered Sat.                                  *)
 (* Unit propagation is Logic!UP: no code shared with the solver or with     *)
 (* package explain.                                                         *)
 (***************************************************************************)
@@ -23,8 +25,15 @@ Ev == Case.ev[ei]
 F == [i \in 1..Len(Case.cons) |-> Case.cons[i].lits]
 F0 == {Range(F[i]) : i \in 1..Len(F)}
 
+(* a case may carry a witness: an assignment the generator claims to satisfy the input.  The claim  *)
+(* is evaluated here, clause by clause; a true claim proves the input satisfiable for any number of *)
+(* variables, so the verdict must be Sat.  A witness that does not satisfy the input (it may be the  *)
+(* model ANOTHER run of the code returned for the same formula) proves nothing and is ignored.       *)
+HasWitness == "witness" \in DOMAIN Case /\ Len(Case.witness) > 0
+WitnessOK == Len(Case.witness) = Case.n /\ \A i \in 1..Len(F) : SatCl(Case.witness, F[i])
 SolveWhy(e) ==
   IF e.status \notin {"SAT", "UNSAT"} THEN "indet"
+  ELSE IF HasWitness /\ WitnessOK /\ e.status # "SAT" THEN "verdict"
   ELSE IF e.status = "SAT" /\ Len(e.model) # Case.n THEN "model-length"
   ELSE IF e.status = "SAT" /\ \E i \in 1..Len(F) : ~SatCl(e.model, F[i]) THEN "model"
   ELSE IF ~e.certOn THEN ""
